@@ -4,6 +4,8 @@ patch=$1; shift
 cd /repo || exit 2
 if [ -n "$(git status --porcelain --untracked-files=no)" ]; then echo "/repo not clean"; exit 2; fi
 git apply "$patch" || { echo "patch does not apply"; exit 2; }
+# evidence written while a patch is applied is not evidence about the tree: keep the real files aside
+rm -rf /verif/harness/target/evidence.keep; cp -r /verif/evidence /verif/harness/target/evidence.keep 2>/dev/null
 for id in "$@"; do
   out=$(cd /verif && VERIF_SEED=${VERIF_SEED:-1} timeout 1200 ./check $id ${TIER:-quick} 2>&1); rc=$?
   echo "== $id rc=$rc $(echo "$out" | grep -E '^violation|^regression' | head -1 | cut -c1-400)"
@@ -13,3 +15,4 @@ git -C /repo checkout -- .
 # rebuild the harness against the clean tree, so that no stale binary built from the patched sources is left behind
 (cd /verif/harness && CARGO_NET_OFFLINE=true cargo build --release --offline >/dev/null 2>&1)
 rm -f /verif/replays/*/found-*.json
+if [ -d /verif/harness/target/evidence.keep ]; then rm -rf /verif/evidence; mv /verif/harness/target/evidence.keep /verif/evidence; fi
